@@ -676,7 +676,11 @@ class APIConnection:
             klass = SocketAPIError
         else:
             klass = UnhandledAPIConnectionError
-        new_exc = klass(f"Error while {action} connection: {err_str}")
+        msg = f"Error while {action} connection: {err_str}"
+        if isinstance(self._fatal_exception, BadNameAPIError):
+            new_exc = klass(msg, self._fatal_exception.received_name)
+        else:
+            new_exc = klass(msg)
         new_exc.__cause__ = cause or ex
         return new_exc
 
